@@ -142,6 +142,7 @@ func runC04(res *Result, rng *RNG, tier string, outDir string) {
 		}
 		cs.add(sc, obs)
 	}
+	c04SharedParsedAuthorizer(res)
 	cs.write(res, outDir, "Cases_C04.v")
 }
 
@@ -278,6 +279,66 @@ func runC02(res *Result, rng *RNG, tier string, outDir string) {
 	c02CaptureWitness(res)
 	c02CaptureMatrix(res)
 	cs.write(res, outDir, "Cases_C02.v")
+}
+
+// c04SharedParsedAuthorizer: authorizer code given as text (parser.FromStringAuthorizer) and
+// installed with AddAuthorizer; ONE parsed value serves two authorizers, each of which then
+// receives one more policy.  The verdict of each must be the one the decision procedure gives
+// for ITS content (k base policies that match nothing, then its own policy), for every k —
+// Go's append leaves spare capacity in the parsed policy list for some k only.
+func c04SharedParsedAuthorizer(res *Result) {
+	pub, priv := rootKeys()
+	b := biscuit.NewBuilder(priv, biscuit.WithRNG(detReader{NewRNG(21)}))
+	f, _ := parser.FromStringFact(`user("alice")`)
+	b.AddAuthorityFact(f)
+	tok, err := b.Build()
+	if err != nil {
+		fatal("shared parsed authorizer: %v", err)
+	}
+	for k := 0; k <= 9; k++ {
+		var sb strings.Builder
+		sb.WriteString(`operation("read");` + "\n")
+		for i := 0; i < k; i++ {
+			fmt.Fprintf(&sb, "allow if nomatch(%d);\n", i)
+		}
+		run := func(shared bool) (string, string) {
+			parsed, err := parser.FromStringAuthorizer(sb.String())
+			if err != nil {
+				fatal("shared parsed authorizer: parse: %v", err)
+			}
+			parsed2 := parsed
+			if !shared {
+				parsed2, _ = parser.FromStringAuthorizer(sb.String())
+			}
+			mk := func(p biscuit.ParsedAuthorizer, own string) biscuit.Authorizer {
+				a, err := tok.AuthorizerFor(biscuit.WithSingularRootPublicKey(pub), biscuit.WithWorldOptions(longDuration()))
+				if err != nil {
+					fatal("shared parsed authorizer: %v", err)
+				}
+				a.AddAuthorizer(p)
+				pol, _ := parser.FromStringPolicy(own)
+				a.AddPolicy(pol)
+				return a
+			}
+			a1 := mk(parsed, `allow if user("alice"), operation("read")`)
+			a2 := mk(parsed2, `deny if true`)
+			c1, _, _ := classifyVerdict(a1.Authorize())
+			c2, _, _ := classifyVerdict(a2.Authorize())
+			return c1, c2
+		}
+		var s1, s2 string
+		if pan := usable(func() { s1, s2 = run(true) }); pan != "" {
+			res.Violate("panic:shared-parsed-authorizer", "AddAuthorizer / AddPolicy / Authorize panicked: "+pan, map[string]interface{}{"base_policies": k})
+			continue
+		}
+		res.Count(fmt.Sprintf("shared-parsed-authorizer %d", k), true)
+		res.Dist("shared-parsed-authorizer")
+		rep := map[string]interface{}{"authorizer_code": sb.String(), "base_policies": k, "first_authorizer_adds": `allow if user("alice"), operation("read")`, "second_authorizer_adds": "deny if true",
+			"verdicts": s1 + " / " + s2}
+		if s1 != "success" || s2 != "denied" {
+			res.Violate("shared-parsed-authorizer", fmt.Sprintf("one parsed authorizer value (%d policies that match nothing) installed in two authorizers, each then given its own policy: verdicts %s / %s, the decision procedure gives success / denied (first matching policy of each authorizer's own list)", k, s1, s2), rep)
+		}
+	}
 }
 
 // c02CaptureWitness: the pre-repair finding F9 — an authority block issued over a custom
